@@ -373,6 +373,59 @@ func classifyDiff(d []string) string {
 	return strings.Join(vlab.SortedSet(kinds), "+")
 }
 
+// cancelled by a sibling failure: a fingerprinted dependency next to a failing sibling, all
+// schedules; the directory every execution leaves behind is fed to a follow-up normal run.
+func c04CancelUnits(tier string) []*Unit {
+	var us []*Unit
+	for _, method := range []string{"checksum", "timestamp"} {
+		method := method
+		pg := &Prog{Tasks: []*T{
+			{Name: "root", Deps: []Ref{D("fp"), D("failer")}},
+			{Name: "fp", Method: method, Sources: []string{"src.txt"}, Cmds: []C{P(), P()}},
+			{Name: "failer", Cmds: []C{P(), F()}},
+		}}
+		sc := scen("cancelled-by-sibling/"+method, pg, vlab.Options{}, "root")
+		sc.Files["src.txt"] = "1\n"
+		sc.UsesFS = true
+		follow := &vlab.Scenario{Name: "followup", Files: sc.Files, Calls: []vlab.CallSpec{{Task: "fp", Vars: [][2]string{{"VP", "@2"}}}}}
+		sc.AfterRun = func(dir string, x *vlab.Exec) {
+			y := runFree(follow, dir)
+			ran := false
+			for _, e := range y.Trace {
+				if strings.Contains(e.Line, "|fp|") {
+					ran = true
+				}
+			}
+			x.Aux["followup_ran"] = fmt.Sprint(ran)
+			x.Aux["followup_err"] = y.ErrStr
+		}
+		check := func(x *vlab.Exec) []vlab.Violation {
+			out := generic("C04", x)
+			ev := vlab.ParseTrace(x.Trace)
+			ti := vlab.IndexTrace(ev)
+			st := pg.Completed(ti, vlab.Inst{Task: "fp", VP: "@>root.d0"}, len(ev)+1, 0)
+			if st != vlab.StOK && x.Aux["followup_ran"] == "false" && x.Aux["followup_err"] == "" {
+				stage := "not_started"
+				if ti.First('S', "fp", "0", "@>root.d0") >= 0 {
+					stage = "cancelled_between_commands"
+				}
+				if ti.First('S', "fp", "1", "@>root.d0") >= 0 {
+					stage = "cancelled_in_last_command"
+				}
+				out = append(out, vlab.V("C04", "skipped_without_successful_attempt", method+":last_attempt=cancelled",
+					fmt.Sprintf("fp was cancelled by its failing sibling (%s) and did not complete, yet the next normal run of fp reported up to date and ran nothing", stage)))
+			}
+			return out
+		}
+		bound := 2
+		if tier == "thorough" {
+			bound = 3
+		}
+		us = append(us, &Unit{Name: sc.Name, Sc: sc, Bound: bound, Prune: false, Check: check, Weight: 6})
+	}
+	return us
+}
+
 func fpUnits(prop, tier string) []*Unit {
 	var shapes []fpShape
 	for _, m := range []string{"checksum", "timestamp"} {
@@ -415,6 +468,9 @@ func fpUnits(prop, tier string) []*Unit {
 				}}
 			return runHist(cfg, dir, deadline)
 		}})
+	}
+	if prop == "C04" {
+		us = append(us, c04CancelUnits(tier)...)
 	}
 	return us
 }
